@@ -305,9 +305,30 @@ static const char *leaf_body[] = {
   "  mixed t = ({ \"leaf\" }); hits++;\n  destruct(this_object()); t = ({ t, g1() + cb1(1, 2) });\n  error(\"after destruct\\n\");\n",
   "  mixed t = ({ \"leaf\" }); mixed *sprd = ({ 1, 2, 3 }); int z; hits++;\n  t = ({ t, va(sprd..., sizeof(t) / z) });\n",
 };
-const char *vm_leaf_names[] = { "plain", "error()", "throw()", "div-by-zero", "index-out-of-bounds", "bad-operand", "call_other-on-0",
+/* leaves 0..NBASE-1 come from leaf_body[]; leaves NBASE.. are the family "callback efun with an unresolvable / wrong callback":
+ * form x target, the error is raised by the efun's own argument processing before any callback instruction runs */
+static const char *base_leaf_names[] = { "plain", "error()", "throw()", "div-by-zero", "index-out-of-bounds", "bad-operand", "call_other-on-0",
   "efun-bad-argument", "sprintf-error", "index-in-foreach", "too-deep-recursion", "eval-cost", "stack-overflow", "load-missing", "load-compile-error", "destruct-self-then-error", "error-after-varargs-spread" };
-const int vm_nleaves = sizeof leaf_body / sizeof leaf_body[0];
+#define NBASE ((int) (sizeof leaf_body / sizeof leaf_body[0]))
+static const char *cb_form_name[] = { "filter(array)", "filter(mapping)", "map(array)", "map(mapping)", "map(string)", "sort_array", "unique_array",
+  "unique_mapping", "implode", "call_out", "add_action", "input_to", "filter(array,extra-args)", "map(mapping,extra-args)" };
+static const char *cb_form_expr[] = { "filter(arr, F, T)", "filter(m, F, T)", "map(arr, F, T)", "map(m, F, T)", "map(str, F, T)", "sort_array(arr, F, T)",
+  "unique_array(arr, F, T)", "unique_mapping(arr, F, T)", "implode(arr, F, T)", "call_out(F, 1, arr, m)", "add_action(F, \"bv\", 0, arr)", "input_to(F, 0, arr, m)",
+  "filter(arr, F, T, m, arr)", "map(m, F, T, arr, str)" };
+static const char *cb_tgt_name[] = { "target-0", "target-destructed-object", "target-unloadable-file", "target-without-that-function", "target-is-a-float", "callback-is-a-float" };
+static const char *cb_tgt_stmt[] = { "T = 0;", "dz = load_object(\"/c05/lv4\"); destruct(dz); T = dz;", "T = \"/no/such/file\";", "T = this_object();", "T = 3.5;", "F = 3.5; T = this_object();" };
+#define NCBFORM ((int) (sizeof cb_form_name / sizeof *cb_form_name))
+#define NCBTGT ((int) (sizeof cb_tgt_name / sizeof *cb_tgt_name))
+const char *vm_leaf_names[17 + 14 * 6 + 1];
+int vm_nleaves;
+__attribute__ ((constructor)) static void vm_init_leaves (void) {
+  static char nm[14 * 6][80];
+  int n = 0;
+  for (int i = 0; i < NBASE; i++) vm_leaf_names[n++] = base_leaf_names[i];
+  for (int f = 0; f < NCBFORM; f++) for (int t = 0; t < NCBTGT; t++) { snprintf (nm[f * NCBTGT + t], sizeof nm[0], "bad-callback:%s:%s", cb_form_name[f], cb_tgt_name[t]); vm_leaf_names[n++] = nm[f * NCBTGT + t]; }
+  vm_nleaves = n;
+}
+
 
 int vm_shape_possible (const int *kinds, int depth) {
   int compiling = 0;
@@ -346,7 +367,12 @@ int vm_shape_text (const int *kinds, int depth, int leaf, char *buf, size_t len)
   for (int i = depth + 1; i <= VM_MAXDEPTH; i++) P ("int g%d() { return 0; }\n", i);
   /* leaf */
   if (depth == 0) P ("int g0() {\n"); else P ("int g%d() {\n", depth);
-  n = subst (buf, len, n, leaf_body[leaf], depth);
+  if (leaf < NBASE) n = subst (buf, len, n, leaf_body[leaf], depth);
+  else {
+    int f = (leaf - NBASE) / NCBTGT, t = (leaf - NBASE) % NCBTGT;
+    P ("  mixed t = ({ \"leaf\" }); mixed arr = ({ \"a\", ({ 1 }), ([ \"k\" : \"v\" ]) }); mapping m = ([ \"k1\" : ({ 1 }), ({ \"key\" }) : \"val\" ]);\n"
+       "  string str = \"xyz\"; mixed T, F = \"nosuch_fn\"; object dz; hits++;\n  %s\n  t = ({ t, %s });\n", cb_tgt_stmt[t], cb_form_expr[f]);
+  }
   P ("  return %d;\n}\n", depth + 100);
   for (int i = depth - 1; i >= 0; i--) {
     const vm_kind *k = &vm_kinds[kinds[i]];
